@@ -165,6 +165,8 @@ func c15Request(c *Ctx) {
 				c.Violation("request/within-limit-refused", sfmt("request body of %d bytes (max %d, mem %d, chunked=%v): err=%v status=%d handler invoked %d times and saw %d bytes", p.size, p.max, p.mem, p.chunked, err, status, invoked, seenLen), desc)
 				return
 			}
+			// (whether a request body was spilled cannot be seen in the directory: multibuf unlinks the request-side file
+			// right after creating it; only the response side keeps a named file, see c15Response)
 		}
 		if left := tmpEntries(dir); len(left) > 0 {
 			c.Violation("tempfile/request-side", sfmt("after the exchange (size %d, mem %d, max %d, chunked=%v, status %d) the temp directory still holds %v", p.size, p.mem, p.max, p.chunked, status, left), desc)
@@ -381,6 +383,14 @@ func c15Response(c *Ctx) {
 		mu.Lock()
 		sp := spilled
 		mu.Unlock()
+		if !over && p.Size > p.Mem && (p.Special == "" || p.Special == "cl0" || p.Special == "grpc") {
+			// a response beyond the in-memory threshold is on disk by the time the handler has written it
+			c.Count("response_spill_expected_and_checked", 1)
+			if !sp {
+				c.Violation("spill/response-kept-in-memory", sfmt("response body of %d bytes with an in-memory threshold of %d: no temporary file existed when the handler had written it (%+v)", p.Size, p.Mem, p), p)
+				return
+			}
+		}
 		if sp || over {
 			c.Nontrivial(sfmt("resp/%+v", p))
 			c.Count("response_points_nontrivial", 1)
